@@ -233,19 +233,39 @@ func runC13(c *Ctx) {
 	// ---- R2 ---------------------------------------------------------------------------------
 	rule = "R2-cookie-after-persist"
 	saveSession := c.Fn(rule, "(*pkg/sessions/persistence.ticket).saveSession")
-	setCookie := c.Fn(rule, "(*pkg/sessions/persistence.ticket).setCookie")
-	if msave != nil && saveSession != nil && setCookie != nil {
+	httpSetCookie := c.StdFunc(rule, "net/http.SetCookie")
+	if msave != nil && saveSession != nil && httpSetCookie != nil {
+		// ticket.setCookie is not an anchor: where it exists the walker inlines it, so the rule sees the
+		// http.SetCookie call itself whether the helper exists or was folded into Manager.Save
 		n := 0
+		isTicketMethod := func(k walk.Call) bool {
+			sc := k.C.StaticCallee()
+			if sc == nil || sc.Signature.Recv() == nil {
+				return false
+			}
+			return sc.Signature.Recv().Type().String() == saveSession.Signature.Recv().Type().String()
+		}
 		c.Walk(rule, msave, func(p *walk.Path) {
-			for _, sc := range p.Find(walk.Static(setCookie), p.End()) {
+			for _, sc := range p.Find(walk.Static(httpSetCookie), p.End()) {
 				n++
 				key := "setCookie|" + fnKey(msave)
-				if _, ok := Has(p, sc.Idx, Need{M: walk.Static(saveSession), Idx: -1, Out: ErrNil, Where: func(p *walk.Path, k walk.Call) bool {
-					return p.Same(p.Arg(k, 0), p.Arg(sc, 0)) && p.Same(p.Arg(k, 1), p.Arg(sc, 3))
-				}}); ok {
-					c.ok(rule, key, sc.In, "ticket.saveSession(s, ...)==nil for the same ticket and session")
-				} else {
+				k, ok := Has(p, sc.Idx, Need{M: walk.Static(saveSession), Idx: -1, Out: ErrNil, Where: func(p *walk.Path, k walk.Call) bool {
+					return len(msave.Params) > 3 && p.Resolve(p.Arg(k, 1)).V == msave.Params[3]
+				}})
+				if !ok {
 					c.bad(rule, key, sc.In, "the ticket cookie is handed out on a path where persisting that session did not succeed", p, sc.Idx)
+					continue
+				}
+				same := true
+				for _, m := range p.Calls() {
+					if m.Idx > k.Idx && m.Idx < sc.Idx && isTicketMethod(m) && !p.Same(p.Arg(m, 0), p.Arg(k, 0)) {
+						same = false
+					}
+				}
+				if same {
+					c.ok(rule, key, sc.In, "ticket.saveSession(s, ...)==nil for the session being saved, and the cookie is built from that same ticket")
+				} else {
+					c.bad(rule, key, sc.In, "the cookie handed out is built from a different ticket than the one the session was persisted under", p, sc.Idx)
 				}
 			}
 		})
